@@ -125,28 +125,28 @@ Outcome(o) ==
   ELSE o.st
 
 LayoutVerdicts(L) ==
-  LET co == Explode(L.worig)
+  LET co == ExplodeLines(L.worig)
       items == XLexItems(BlankOf(co, {}))          \* the items of the original window, once per line
       tokOK == Toks(items) = L.toks
       \* The new window differs from the original only between the first and the last changed boundary:
       \* it must be  original up to token i1 | new middle | original from the end of token i2+1,  and the
       \* middle (token i1 .. token i2+1 with the new fillers) must have exactly these items.
-      SameTokens(c) ==
+      SameTokens(c, cn) ==
         LET i1 == c.ch[1][1]
             i2 == c.ch[Len(c.ch)][1]
             preLen == items[i1].a - 1
-            postLen == Len(L.worig) - items[i2 + 1].z
-            midLen == Len(c.wnew) - preLen - postLen
+            postLen == Len(co) - items[i2 + 1].z
+            midLen == Len(cn) - preLen - postLen
         IN /\ i1 >= 1 /\ i1 <= i2 /\ i2 < Len(items) /\ midLen >= 0
-           /\ SubSeq(c.wnew, 1, preLen) = SubSeq(L.worig, 1, preLen)
-           /\ SubSeq(c.wnew, preLen + midLen + 1, Len(c.wnew)) = SubSeq(L.worig, items[i2 + 1].z + 1, Len(L.worig))
-           /\ XLex(Explode(SubSeq(c.wnew, preLen + 1, preLen + midLen))) = SubSeq(L.toks, i1, i2 + 1)
+           /\ SubSeq(cn, 1, preLen) = SubSeq(co, 1, preLen)
+           /\ SubSeq(cn, preLen + midLen + 1, Len(cn)) = SubSeq(co, items[i2 + 1].z + 1, Len(co))
+           /\ XLex(SubSeq(cn, preLen + 1, preLen + midLen)) = SubSeq(L.toks, i1, i2 + 1)
       One(vi, c) ==
         IF ~tokOK THEN V(vi, "layout", "LAYOUT", "machinery", "harness tokens of the original differ from XLex in " \o L.wid)
-        ELSE IF ~SameTokens(c) THEN V(vi, "layout", "LAYOUT", "machinery", "the re-laid-out window has other tokens (XLex) in " \o L.wid)
+        ELSE LET cn == ExplodeLines(c.wnew) IN
+        IF ~SameTokens(c, cn) THEN V(vi, "layout", "LAYOUT", "machinery", "the re-laid-out window has other tokens (XLex) in " \o L.wid)
         ELSE IF SameOutcome(L.o0, c) THEN V(vi, "layout", "LAYOUT", "ok", "")
-        ELSE LET cn == Explode(c.wnew)
-                 RECURSIVE FirstExplaining(_)
+        ELSE LET RECURSIVE FirstExplaining(_)
                  FirstExplaining(q) ==
                    IF q > Len(LayoutDevSets) THEN 0
                    ELSE IF ImplView(co, LayoutDevSets[q]) # ImplView(cn, LayoutDevSets[q]) THEN q
@@ -163,16 +163,17 @@ LayoutVerdicts(L) ==
 (* k = "errline"                                                            *)
 
 ErrVerdict(L) ==
-  IF L.lead0 \o Render(L.toks, L.f0) \o L.trail0 # L.t0 \/ L.lead1 \o Render(L.toks, L.f1) \o L.trail1 # L.t1
+  IF \/ JoinLines(L.lead0) \o Render(L.toks, [q \in 1..Len(L.f0) |-> JoinLines(L.f0[q])]) \o JoinLines(L.trail0) # JoinLines(L.t0)
+     \/ JoinLines(L.lead1) \o Render(L.toks, [q \in 1..Len(L.f1) |-> JoinLines(L.f1[q])]) \o JoinLines(L.trail1) # JoinLines(L.t1)
   THEN V(1, "errline", "ERRLINE", "machinery", "recorded texts are not the rendering of the recorded tokens and fillers")
   ELSE IF ~(L.l0.st = "exc" /\ L.l0.cls = "ParseError" /\ L.l0.line > 0)
   THEN V(1, "errline", "ERRLINE", "skip", "the injected item is no syntax error for the parser in the comment-free layout")
   ELSE IF ~(L.l1.st = "exc" /\ L.l1.cls = "ParseError" /\ L.l1.line > 0)
   THEN V(1, "errline", "ERRLINE", "reject", "syntax error reported in the comment-free layout but " \o Outcome(L.l1) \o " in the laid-out text")
   ELSE LET n == Len(L.toks)
-           j == TokenAt(PositionsAfter(L.lead0, L.toks, L.f0, {}), L.l0.line, L.l0.col)
-           LineIn(D) == LET pos == PositionsAfter(L.lead1, L.toks, L.f1, D)
-                        IN IF j <= n THEN pos[j].line ELSE pos[n].line + CountNL(BlankOf(CharsOf(L.trail1), D))
+           j == TokenAt(PositionsAfter(L.lead0, L.toks, L.f0, {}, n), L.l0.line, L.l0.col)
+           LineIn(D) == IF j <= n THEN PositionsAfter(L.lead1, L.toks, L.f1, D, j)[j].line
+                        ELSE PositionsAfter(L.lead1, L.toks, L.f1, D, n)[n].line + NLCount(ReadAs(L.trail1, D))
        IN IF j <= 0 \/ (j > n /\ ~L.attail)
           THEN V(1, "errline", "ERRLINE", "skip", "the parser's error position is not on a token of the window")
           ELSE IF L.l1.line = LineIn({}) THEN V(1, "errline", "ERRLINE", "ok", "")
